@@ -304,3 +304,105 @@ Lemma run_phases_l_locked : forall locks fuel st p,
 Proof.
   intros locks fuel st p. split; [intros u Hu; now apply run_phases_l_locked_untouched | apply run_phases_l_extends].
 Qed.
+
+(* ------------------------------------------------------------------ `jug sleep-until` *)
+(* a load that ran to the end of the jugfile, looked at again when the store has grown and holds a result for
+   every task of that load: it runs to the end again (compounds that were expanded are collapsed now), returns the
+   same thing, and every task it defines has a result *)
+Lemma load_from_grown : forall p st st' tr tr', extends st st' ->
+  snd (load_from st p tr) <> None ->
+  (forall t, In t (tasks_rev (fst (load_from st p tr))) -> stored st' (tid_of t) = true) ->
+  (forall t, In t (tasks_rev tr') -> stored st' (tid_of t) = true) ->
+  snd (load_from st' p tr') = snd (load_from st p tr) /\
+  (forall t, In t (tasks_rev (fst (load_from st' p tr'))) -> stored st' (tid_of t) = true).
+Proof.
+  induction p as [r | t k IH | m k IH | k IH | a k IH | h ca body IHb k IHk]; intros st st' tr tr' He Hn Hall Hall'.
+  - simpl. split; [reflexivity | exact Hall'].
+  - simpl in *. apply IH; try assumption.
+    intros u [<-|Hu]; [|now apply Hall'].
+    apply Hall. apply load_from_tasks_incl. now left.
+  - simpl in *. apply IH; assumption.
+  - simpl in *. destruct (all_stored st (tasks_rev tr)) eqn:Ea; [|simpl in Hn; congruence].
+    assert (Ea' : all_stored st' (tasks_rev tr') = true) by (apply all_stored_forall; exact Hall').
+    rewrite Ea'. apply IH; assumption.
+  - simpl in *. destruct (resolve (lookup st) a) as [v|] eqn:Er; [|simpl in Hn; congruence].
+    rewrite (resolve_extends _ _ _ _ He Er). apply IH; assumption.
+  - simpl in *. destruct (stored st h) eqn:Es.
+    + rewrite (extends_stored _ _ _ He Es). apply IHk; try assumption.
+      intros u [<-|Hu]; [simpl; now apply (extends_stored _ _ _ He) | now apply Hall'].
+    + destruct (load_from st body tr) as [tr1 [inner|]] eqn:Eb; [|simpl in Hn; congruence].
+      assert (Hh : stored st' h = true).
+      { change h with (tid_of (final h inner)). apply Hall. apply load_from_tasks_incl. now left. }
+      rewrite Hh. apply IHk; try assumption.
+      intros u [<-|Hu]; [exact Hh | now apply Hall'].
+Qed.
+
+Lemma load_grown : forall p st st', extends st st' -> l_hasbarrier (load st p) = false ->
+  (forall t, In t (l_tasks (load st p)) -> stored st' (tid_of t) = true) ->
+  l_hasbarrier (load st' p) = false /\ check st' p = 0.
+Proof.
+  intros p st st' He Hb Hall. rewrite load_hasbarrier in Hb.
+  assert (Hn : snd (load_from st p []) <> None).
+  { destruct (snd (load_from st p [])); [discriminate | simpl in Hb; discriminate]. }
+  destruct (load_from_grown p st st' [] [] He Hn) as [E Hs].
+  - intros t Ht. apply Hall. rewrite load_tasks. now apply -> in_rev.
+  - intros t [].
+  - split.
+    + rewrite load_hasbarrier, E. exact Hb.
+    + apply check_zero_iff. intros t Ht. rewrite load_tasks in Ht. apply in_rev in Ht. now apply Hs.
+Qed.
+
+Lemma add_new_extends : forall inc st, extends st (add_new inc st).
+Proof.
+  induction inc as [|[k v] r IH]; intros st; simpl; [apply extends_refl|].
+  destruct (stored (add_new r st) k) eqn:E; [apply IH|].
+  eapply extends_trans; [apply IH | now apply extends_cons].
+Qed.
+
+Lemma wait_all_spec : forall ts incs st s r n, wait_all ts st incs = Some (s, r, n) ->
+  all_stored s ts = true /\ extends st s.
+Proof.
+  intros ts. induction incs as [|i incs IH]; intros st s r n H; simpl in H.
+  - destruct (all_stored st ts) eqn:E; [|discriminate]. inversion H; subst. split; [exact E | apply extends_refl].
+  - destruct (all_stored st ts) eqn:E.
+    + inversion H; subst. split; [exact E | apply extends_refl].
+    + destruct (wait_all ts (add_new i st) incs) as [[[s1 r1] n1]|] eqn:Ew; [|discriminate].
+      inversion H; subst. destruct (IH _ _ _ _ Ew) as [Ha Hx]. split; [exact Ha|].
+      eapply extends_trans; [apply add_new_extends | exact Hx].
+Qed.
+
+(* sleep-until exits only when the jugfile, loaded against the store as it is then, has no barrier closed and every
+   task it defines has a result (`jug check` = 0); nothing the store held is lost on the way *)
+Lemma sleep_until_complete : forall fuel st incs p st' sleeps loads,
+  sleep_until fuel st incs p = Some (st', sleeps, loads) ->
+  l_hasbarrier (load st' p) = false /\ check st' p = 0 /\ extends st st'.
+Proof.
+  induction fuel as [|f IH]; intros st incs p st' sleeps loads H; simpl in H; [discriminate|].
+  destruct (wait_all (l_tasks (load st p)) st incs) as [[[st1 incs1] n]|] eqn:Ew; [|discriminate].
+  destruct (wait_all_spec _ _ _ _ _ _ Ew) as [Ha Hx].
+  destruct (l_hasbarrier (load st p)) eqn:Eb.
+  - destruct (sleep_until f st1 incs1 p) as [[[s n2] k]|] eqn:Es; [|discriminate].
+    inversion H; subst. destruct (IH _ _ _ _ _ _ Es) as [H1 [H2 H3]].
+    split; [exact H1|]. split; [exact H2|]. eapply extends_trans; eauto.
+  - inversion H; subst.
+    destruct (load_grown p st st' Hx Eb) as [H1 H2].
+    + apply all_stored_forall. exact Ha.
+    + split; [exact H1|]. split; [exact H2 | exact Hx].
+Qed.
+
+(* and while a barrier is closed it cannot exit: some loaded task has no result (stopped_unstored), so the wait is a
+   real one; stated for one step: the first load is flagged -> the result is that of the loop continued after the wait *)
+Lemma sleep_until_step : forall f st incs p,
+  sleep_until (S f) st incs p =
+  let l := load st p in
+  match wait_all (l_tasks l) st incs with
+  | None => None
+  | Some (st1, incs1, n) =>
+      if l_hasbarrier l then
+        match sleep_until f st1 incs1 p with
+        | Some (s, n2, k) => Some (s, n + n2, S k)
+        | None => None
+        end
+      else Some (st1, n, 1)
+  end.
+Proof. reflexivity. Qed.
